@@ -291,6 +291,24 @@ func (ex *Exec) callFunc(st *State, fn *types.Func, recv *Val, args []*Val, call
 	savedCall := ex.curCall
 	ex.curCall = call
 	defer func() { ex.curCall = savedCall }()
+	// arguments take the parameter types (boxing into interfaces, typing constants)
+	if sig, ok := fn.Type().(*types.Signature); ok {
+		np := sig.Params().Len()
+		conv := make([]*Val, len(args))
+		copy(conv, args)
+		for i := range conv {
+			if conv[i] == nil {
+				continue
+			}
+			if i < np && !(sig.Variadic() && i >= np-1) {
+				pt := sig.Params().At(i).Type()
+				if _, isTP := types.Unalias(pt).(*types.TypeParam); !isTP {
+					conv[i] = ex.assignConv(st, conv[i], pt, token.NoPos)
+				}
+			}
+		}
+		args = conv
+	}
 	pos := token.NoPos
 	if call != nil {
 		pos = call.Pos()
@@ -914,6 +932,23 @@ func (ex *Exec) specForm(st *State, name string, call *ast.CallExpr, sc *SpecCtx
 			return one(ex.boolVal(and(eq(a.kid("dom").S, b.kid("dom").S), eq(a.kid("card").S, b.kid("card").S))))
 		}
 		return one(ex.boolVal("true"))
+	case "isType":
+		v := ex.eval(st, call.Args[0], sc)
+		t := ex.resolveType(call.Args[1], sc)
+		if t == nil || v.Sh == nil || v.Sh.Kind != "any" {
+			ex.specErr("isType(v, T): v must be an `any` value and T a type")
+			return one(ex.boolVal("false"))
+		}
+		return one(ex.boolVal(and(eq(v.kid("tag").S, fmt.Sprint(tagOther)), eq(v.kid("ty").S, fmt.Sprint(typeID(t))))))
+	case "asPtr", "asType":
+		v := ex.eval(st, call.Args[0], sc)
+		t := ex.resolveType(call.Args[1], sc)
+		if t == nil || v.Sh == nil || v.Sh.Kind != "any" {
+			ex.specErr("asPtr(v, T): v must be an `any` value and T a type")
+			return one(ex.freshVal(t, "asptr"))
+		}
+		r, _ := ex.typeAssert(st, v, t)
+		return one(r)
 	case "clockNow":
 		c := ex.eval(st, call.Args[0], sc)
 		return one(ex.clockNow(st, c, nil, sc))
